@@ -80,10 +80,20 @@ META = {
             "exception, exit in {0,1}; exactly-one-injected-problem scripts must print a diagnostic and exit non-zero; a "
             "printed diagnostic implies a non-zero exit status; check-sat-free inputs finish within a CPU budget.",
             "Sanitizers only see executed paths and miss non-adjacent overflows; CPU-time budgets only; gcc ASan+UBSan, NDEBUG as shipped.", "4/C18"),
+    "C19": ("outputs", "metamorphic monitor: script vs the same script with rejected commands inserted",
+            "1-3 commands of 13 rejected kinds are inserted into valid scripts with queries; each must answer (error ...), the "
+            "other responses must keep check-sat answers, acceptance pattern and printed name sets, and differing outputs must "
+            "pass the C03/C06/C08 oracles for the script without the commands.",
+            "Self-consistency of the same binary plus the output oracles; kinds of rejected commands are a fixed catalogue.", "4/C19"),
     "C20": ("procmon", "differential process monitor: file mode vs chunked pipe mode",
             "Syntactically valid scripts with hostile layout are run from a file and through -p under several chunkings of "
             "stdin; stdout and exit status must be byte-identical.",
             "'Syntactically valid' = accepted by file mode without a syntax error; chunkings sampled, not enumerated.", "4/C20"),
+    "C21": ("outputs", "online checker of a trace specification (reference scope model predicts every response)",
+            "Histories with :named terms (top-level/nested), define-funs, re-introductions and uses of visible and popped "
+            "names/definitions in scoped and global mode; a reference scope model predicts acceptance of each command and the "
+            "name sets printed by get-unsat-core / get-assignment.",
+            "The reference model encodes the scoping rules of the statement; only generated histories are seen.", "4/C21"),
     "C23": ("procmon", "replicated-run monitor with ASLR on/off and varying environment",
             "Scripts that print containers (models, cores, interpolants, proofs, assignments) are run 3+1 times; outputs "
             "and exit status must be byte-identical.",
